@@ -24,10 +24,11 @@ VARIABLES
   nsys,       \* waitpid/kill/sleep calls in this API call
   nkill,      \* kill calls in this API call
   killOk,     \* result of the kill of this call was 0
+  told,       \* a waitpid of the handle has returned the child's status or ECHILD: it has been told the child is gone
   viol
 
 pvars == <<cst, truth, exitT, now, det, known, op, opD, opN, t0, knownAtCall, nwait, slept, nsys, nkill, killOk,
-           viol>>
+           told, viol>>
 
 NoSt == [k |-> "none", v |-> 0]
 NoTime == <<>>
@@ -57,37 +58,37 @@ MaxChecks(d) == 20 + d[1] * 100 + d[2] \div 10000000
 PReset(d0) ==
   /\ cst' = "running" /\ truth' = NoSt /\ exitT' = NoTime /\ now' = <<0, 0>> /\ det' = d0
   /\ known' = NoSt /\ op' = "none" /\ opD' = <<0, 0>> /\ opN' = 0 /\ t0' = <<0, 0>> /\ knownAtCall' = NoSt
-  /\ nwait' = 0 /\ slept' = FALSE /\ nsys' = 0 /\ nkill' = 0 /\ killOk' = TRUE /\ viol' = {}
+  /\ nwait' = 0 /\ slept' = FALSE /\ nsys' = 0 /\ nkill' = 0 /\ killOk' = TRUE /\ told' = FALSE /\ viol' = {}
 
 PInit(d0) ==
   /\ cst = "running" /\ truth = NoSt /\ exitT = NoTime /\ now = <<0, 0>> /\ det = d0
   /\ known = NoSt /\ op = "none" /\ opD = <<0, 0>> /\ opN = 0 /\ t0 = <<0, 0>> /\ knownAtCall = NoSt
-  /\ nwait = 0 /\ slept = FALSE /\ nsys = 0 /\ nkill = 0 /\ killOk = TRUE /\ viol = {}
+  /\ nwait = 0 /\ slept = FALSE /\ nsys = 0 /\ nkill = 0 /\ killOk = TRUE /\ told = FALSE /\ viol = {}
 
 \* ---------------------------------------------------------------- environment
 Exit(st, at) ==
   /\ cst = "running" /\ TLe(now, at)
   /\ cst' = "zombie" /\ truth' = st /\ exitT' = at
-  /\ UNCHANGED <<now, det, known, op, opD, opN, t0, knownAtCall, nwait, slept, nsys, nkill, killOk, viol>>
+  /\ UNCHANGED <<now, det, known, op, opD, opN, t0, knownAtCall, nwait, slept, nsys, nkill, killOk, told, viol>>
 
 XReap ==
   /\ cst = "zombie" /\ cst' = "reaped_ext"
-  /\ UNCHANGED <<truth, exitT, now, det, known, op, opD, opN, t0, knownAtCall, nwait, slept, nsys, nkill, killOk, viol>>
+  /\ UNCHANGED <<truth, exitT, now, det, known, op, opD, opN, t0, knownAtCall, nwait, slept, nsys, nkill, killOk, told, viol>>
 
 Reuse ==
   /\ cst = "reaped_ext" /\ cst' = "alien"
-  /\ UNCHANGED <<truth, exitT, now, det, known, op, opD, opN, t0, knownAtCall, nwait, slept, nsys, nkill, killOk, viol>>
+  /\ UNCHANGED <<truth, exitT, now, det, known, op, opD, opN, t0, knownAtCall, nwait, slept, nsys, nkill, killOk, told, viol>>
 
 Delay(t) ==
   /\ TLe(now, t) /\ now' = t
-  /\ UNCHANGED <<cst, truth, exitT, det, known, op, opD, opN, t0, knownAtCall, nwait, slept, nsys, nkill, killOk, viol>>
+  /\ UNCHANGED <<cst, truth, exitT, det, known, op, opD, opN, t0, knownAtCall, nwait, slept, nsys, nkill, killOk, told, viol>>
 
 \* ---------------------------------------------------------------- API
 Api(o, d, n) ==
   /\ op = "none"
   /\ op' = o /\ opD' = d /\ opN' = n /\ t0' = now /\ knownAtCall' = known
   /\ nwait' = 0 /\ slept' = FALSE /\ nsys' = 0 /\ nkill' = 0 /\ killOk' = TRUE
-  /\ UNCHANGED <<cst, truth, exitT, now, det, known, viol>>
+  /\ UNCHANGED <<cst, truth, exitT, now, det, known, told, viol>>
 
 StatusOps == {"poll", "wait", "wait_timeout", "exit_status"}
 SignalOps == {"terminate", "kill", "send_signal"}
@@ -115,12 +116,19 @@ ApiRet(o, res, t) ==
        \cup V(o \in {"pid", "exit_status", "detach"} => nsys = 0, "C09_quiet")
        \* ---- C10
        \cup V(o \in SignalOps /\ knownAtCall # NoSt => res.k = "ok" /\ nkill = 0, "C10_silent_after_observed")
-       \cup V(o \in SignalOps /\ knownAtCall = NoSt => nkill = 1, "C10_exact")
+       \cup V(o \in SignalOps /\ told /\ nkill = 0 => res.k = "ok", "C10_silent_once_found_reaped")
+       \cup V(o \in SignalOps /\ knownAtCall = NoSt /\ ~told => nkill = 1, "C10_exact")
        \cup V(o \in SignalOps /\ knownAtCall = NoSt /\ nkill = 1 => (res.k = "ok") = killOk, "C10_exact")
        \cup V(o \notin SignalOps => nkill = 0, "C10_exact")
        \* ---- C11
        \cup V(o = "wait_timeout" /\ res.k = "none" => TLe(deadline, t), "C11_not_early")
        \cup V(o = "wait_timeout" /\ res.k = "none" => TLe(t, TAdd(deadline, Slack)), "C11_not_late")
+       \* "still running" must have been true at (or after) the deadline: a child that exited before it is reported
+       \cup V(o \in {"wait_timeout", "poll"} /\ res.k = "none" /\ knownAtCall = NoSt => exitT = NoTime \/ TLe(deadline, exitT),
+              "C11_still_running_only_if_running_at_deadline")
+       \* the operating system has told the handle that the child is gone (reaped by it or by somebody else):
+       \* from then on a query answers with a status
+       \cup V(o \in {"wait_timeout", "poll", "wait"} /\ told => IsStatus(res), "C09_status_once_the_os_said_gone")
        \cup V(o = "wait_timeout" /\ IsStatus(res) /\ exitT # NoTime /\ knownAtCall = NoSt
                 => TLe(t, TAdd(TMax(t0, exitT), Prompt)), "C11_prompt")
        \cup V(o \in {"poll", "wait", "wait_timeout"} /\ knownAtCall # NoSt => nsys = 0 /\ t = t0, "C11_known_at_once")
@@ -128,7 +136,7 @@ ApiRet(o, res, t) ==
        \* ---- C12 (the Popen itself)
        \cup V(o = "drop" /\ ~det => cst \notin {"running", "zombie"}, "C12_reaped")
        \cup V(o = "drop" /\ det => nsys = 0 /\ t = t0, "C12_detached")
-  /\ UNCHANGED <<cst, truth, exitT, opD, opN, t0, knownAtCall, nwait, slept, nsys, nkill, killOk>>
+  /\ UNCHANGED <<cst, truth, exitT, opD, opN, t0, knownAtCall, nwait, slept, nsys, nkill, killOk, told>>
 
 \* ---------------------------------------------------------------- system calls of the handle
 \* waitpid(child, nohang?) = ret (0 | VPid | -1/ECHILD) with status st
@@ -137,8 +145,10 @@ Waitpid(nohang, ret, st) ==
      \/ ret = VPid /\ cst = "zombie" /\ st = truth /\ cst' = "reaped_us"
      \/ ret = -1 /\ cst \in {"reaped_us", "reaped_ext", "alien"} /\ UNCHANGED cst
   /\ nwait' = nwait + 1 /\ nsys' = nsys + 1 /\ slept' = FALSE
+  /\ told' = (told \/ ret # 0)
   /\ viol' = viol
        \cup V(known = NoSt, "C09_quiet")
+       \cup V(~told, "C09_quiet")
        \cup V(op # "none", "C09_quiet")
        \cup V(op = "poll" => nohang, "C11_poll_nonblocking")
        \cup V(op = "wait_timeout" => nohang, "C11_wait_timeout_blocks")
@@ -154,7 +164,7 @@ WaitBlock ==
        \cup V(op # "poll", "C11_poll_nonblocking")
        \cup V(op # "wait_timeout", "C11_wait_timeout_blocks")
        \cup V(op = "drop" => ~det, "C12_detached")
-  /\ UNCHANGED <<cst, truth, exitT, now, det, known, op, opD, opN, t0, knownAtCall, nwait, slept, nsys, nkill, killOk>>
+  /\ UNCHANGED <<cst, truth, exitT, now, det, known, op, opD, opN, t0, knownAtCall, nwait, slept, nsys, nkill, killOk, told>>
 
 \* kill(pid, sig) = ret
 Kill(pid, sig, ret) ==
@@ -163,20 +173,21 @@ Kill(pid, sig, ret) ==
   /\ viol' = viol
        \cup V(pid = VPid, "C10_exact")
        \cup V(known = NoSt, "C10_silent_after_observed")
+       \cup V(~told, "C10_silent_once_found_reaped")
        \cup V(op \in SignalOps, "C10_exact")
        \cup V(op = "terminate" => sig = SIGTERM, "C10_exact")
        \cup V(op = "kill" => sig = SIGKILL, "C10_exact")
        \cup V(op = "send_signal" => sig = opN, "C10_exact")
        \cup V(nkill = 0, "C10_exact")
-  /\ UNCHANGED <<cst, truth, exitT, now, det, known, op, opD, opN, t0, knownAtCall, nwait, slept>>
+  /\ UNCHANGED <<cst, truth, exitT, now, det, known, op, opD, opN, t0, knownAtCall, nwait, slept, told>>
 
 \* the handle touched a process that is not its child
 ForeignKill ==
   /\ viol' = viol \cup {"C10_exact"}
-  /\ UNCHANGED <<cst, truth, exitT, now, det, known, op, opD, opN, t0, knownAtCall, nwait, slept, nsys, nkill, killOk>>
+  /\ UNCHANGED <<cst, truth, exitT, now, det, known, op, opD, opN, t0, knownAtCall, nwait, slept, nsys, nkill, killOk, told>>
 ForeignWait ==
   /\ viol' = viol \cup {"C09_quiet"}
-  /\ UNCHANGED <<cst, truth, exitT, now, det, known, op, opD, opN, t0, knownAtCall, nwait, slept, nsys, nkill, killOk>>
+  /\ UNCHANGED <<cst, truth, exitT, now, det, known, op, opD, opN, t0, knownAtCall, nwait, slept, nsys, nkill, killOk, told>>
 
 \* sleep(d) returned at instant t
 Sleep(d, t) ==
@@ -185,7 +196,7 @@ Sleep(d, t) ==
   /\ viol' = viol
        \cup V(op # "poll", "C11_poll_nonblocking")
        \cup V(op = "wait_timeout", "C11_sleep_outside_wait_timeout")
-  /\ UNCHANGED <<cst, truth, exitT, det, known, op, opD, opN, t0, knownAtCall, nwait, nkill, killOk>>
+  /\ UNCHANGED <<cst, truth, exitT, det, known, op, opD, opN, t0, knownAtCall, nwait, nkill, killOk, told>>
 
 \* n consecutive pairs (waitpid(nohang) = 0 ; sleep(d)) during which nothing else happened
 BkRun(n, d, t) ==
@@ -198,9 +209,9 @@ BkRun(n, d, t) ==
        \cup V(op = "wait_timeout" /\ nwait >= 1 => slept \/ TLe(TAdd(t0, opD), now), "C11_no_busy_wait")
        \cup V(n > 1 => d # <<0, 0>>, "C11_no_busy_wait")
        \cup V(op = "wait_timeout" => nwait + n <= MaxChecks(opD), "C11_no_busy_wait")
-  /\ UNCHANGED <<cst, truth, exitT, det, known, op, opD, opN, t0, knownAtCall, nkill, killOk>>
+  /\ UNCHANGED <<cst, truth, exitT, det, known, op, opD, opN, t0, knownAtCall, nkill, killOk, told>>
 
 Runaway ==
   /\ viol' = viol \cup {"C11_no_busy_wait"}
-  /\ UNCHANGED <<cst, truth, exitT, now, det, known, op, opD, opN, t0, knownAtCall, nwait, slept, nsys, nkill, killOk>>
+  /\ UNCHANGED <<cst, truth, exitT, now, det, known, op, opD, opN, t0, knownAtCall, nwait, slept, nsys, nkill, killOk, told>>
 =============================================================================
